@@ -170,3 +170,14 @@ func AtStep(name string, max int) {
 
 // Yield lets other goroutines run (a scheduling point).
 func Yield() { time.Sleep(200 * time.Microsecond) }
+
+// MountHTTP serves h under a fresh base URL (used for side-channel uploads).
+func MountHTTP(h http.Handler) string {
+	srv := httptest.NewServer(h)
+	return srv.URL
+}
+
+// Engine-only observations of the timer / deadline models (empty natively).
+func TimerDurations() []int64 { return nil }
+func ReadDeadlines() []int64  { return nil }
+func TimersFired() int        { return 0 }
